@@ -14,7 +14,7 @@ BUDGET = {"quick": 55, "thorough": 900}
 QUICK_CASES = 3000  # generator items in the quick tier (fixed amount of work; BUDGET is then only a safety cap)
 FLOOR = {"quick": 20000, "thorough": 4000}
 TIMEOUT = 90
-REQUIRED_OBS = ["matcher_queries", "guarded_cases", "occurrences", "accepted", "rejected_time_active", "rejected_state_active", "rejected_hold_off", "direct_calls"]
+REQUIRED_OBS = ["matcher_queries", "guarded_cases", "occurrences", "accepted", "rejected_time_active", "rejected_state_active", "rejected_hold_off", "direct_calls", "transient_watchers", "state_hold_guarded_cases"]
 RULE = (
     "(B) TrigTime.timer_active_check on lists of <= 4 positive/negated range()/cron() specifications (daily, dated, weekday, sunrise/sunset, "
     "now-relative, wrapping midnight) at times incl. every end point -1us/exact/+1us, against an independent window matcher; (A) the real "
@@ -276,7 +276,22 @@ def gen_guarded(rng):
         extra.append({"t": rng.randint(1, 170 * 60), "kind": "direct"})
     # a second, far-away time trigger on the same function puts the (legacy) trigger loop into its timed wait
     far = kind != "time" and rng.random() < 0.35
-    return {"kind": kind, "specs": specs, "hold_off": hold_off, "sa": sa, "order": order, "occ": occ, "extra": extra, "g0": rng.choice(["on", "off"]), "far": far}
+    # a transient watcher of the guard-only entity through an attribute name: after it is gone the guard must still see
+    # the current value of that entity (no stale notification cache)
+    tw = rng.random() < 0.35
+    if tw:
+        ts = sorted(rng.sample(range(5, 120 * 60), 3))
+        extra.append({"t": ts[0], "kind": "tw_start"})
+        extra.append({"t": ts[1], "kind": "guard", "v": rng.choice(["on", "off"]), "a9": 0})
+        extra.append({"t": ts[2], "kind": "guard", "v": rng.choice(["on", "off"]), "a9": 1})
+        for _ in range(rng.randint(1, 3)):
+            extra.append({"t": rng.randint(ts[2] + 1, 170 * 60), "kind": "guard", "v": rng.choice(["on", "off"])})
+    # state_hold on the guarded state trigger: the guard is judged on the values of the change that started the hold
+    state_hold = None
+    if kind == "state" and rng.random() < 0.3:
+        state_hold, specs, hold_off, far = 10.5, [], None, False
+        sa = ["and", ["ne", "pyscript.e0", "off"], rng.choice([["old_eq", "pyscript.e0", "on"], ["ne", "pyscript.e0", "x"], ["attr_eq", "pyscript.e0", "a1", 1], ["old_attr_eq", "pyscript.e0", "a1", 1]])]
+    return {"kind": kind, "specs": specs, "hold_off": hold_off, "sa": sa, "order": order, "occ": occ, "extra": extra, "g0": rng.choice(["on", "off"]), "far": far, "tw": tw, "state_hold": state_hold}
 
 
 def render_guarded(g):
@@ -286,7 +301,7 @@ def render_guarded(g):
     if g["kind"] == "event":
         lines.append("@event_trigger('ev7')")
     elif g["kind"] == "state":
-        lines.append("@state_trigger('pyscript.e0', 'pyscript.e0.a1')")
+        lines.append("@state_trigger('pyscript.e0', 'pyscript.e0.a1'" + (f", state_hold={g['state_hold']}" if g.get("state_hold") else "") + ")")
     else:
         specs = ", ".join(repr(f"once({o['sec'] // 3600}:{(o['sec'] // 60) % 60:02d}:{o['sec'] % 60:02d})") for o in g["occ"])
         lines.append(f"@time_trigger({specs})")
@@ -306,6 +321,8 @@ def render_guarded(g):
     lines.append("@service")
     lines.append("def call_direct():")
     lines.append("    guarded(trigger_type='direct')")
+    if g.get("tw"):
+        lines += ["", "@event_trigger('tw7')", "def transient(**kw):", "    r = task.wait_until(state_trigger='pyscript.g0.a9 == 1', timeout=100000)", "    vf.rec('tw', r=r.get('trigger_type'))"]
     return "\n".join(lines) + "\n"
 
 
@@ -318,7 +335,7 @@ def run_part_a(case):
     state = {}
 
     def pre(w):
-        w.hass.states.async_set("pyscript.g0", g["g0"], {})
+        w.hass.states.async_set("pyscript.g0", g["g0"], {"a9": 0})
         w.hass.states.async_set("pyscript.e0", "init", {"a1": 0})
 
     async def main(w):
@@ -341,7 +358,9 @@ def run_part_a(case):
                 o["old"] = {"s": st.state, "a": dict(st.attributes)}
                 w.hass.states.async_set("pyscript.e0", o["v"], {"a1": o["a1"]}, context=ctx)
             elif o["kind"] == "guard":
-                w.hass.states.async_set("pyscript.g0", o["v"], {}, context=ctx)
+                w.hass.states.async_set("pyscript.g0", o["v"], {"a9": o.get("a9", 0)}, context=ctx)
+            elif o["kind"] == "tw_start":
+                w.hass.bus.async_fire("tw7", {})
             elif o["kind"] == "direct":
                 await w.hass.services.async_call("pyscript", "call_direct", {}, blocking=True)
             await w.settle()
@@ -359,11 +378,35 @@ def run_part_a(case):
     expected = []
     stats = {"acc": 0, "rta": 0, "rsa": 0, "rho": 0}
     timeline = sorted([(o["t"], i, o) for i, o in enumerate(g["occ"] + g["extra"])], key=lambda x: (x[0], x[1]))
+    pending = None  # state_hold: (expiry offset, ident, old, new)
+
+    def expire(upto):
+        nonlocal pending
+        if pending is not None and pending[0] <= upto:
+            _, ident_, old_, new_ = pending
+            pending = None
+            env_ = {"pyscript.g0": {"s": g0, "a": {}}, "pyscript.e0": new_}
+            if bool(X.truth(g["sa"], env_, "pyscript.e0", old_)):
+                stats["acc"] += 1
+                expected.append(ident_)
+            else:
+                stats["rsa"] += 1
+
     for t, i, o in timeline:
+        if g.get("state_hold"):
+            expire(t + 0.37)
         if o["kind"] == "guard":
             g0 = o["v"]
             continue
-        if o["kind"] == "direct":
+        if o["kind"] in ("direct", "tw_start"):
+            continue
+        if g.get("state_hold"):
+            old, new = e0, {"s": o["v"], "a": {"a1": o["a1"]}}
+            if old == new:
+                continue
+            e0 = new
+            if pending is None:
+                pending = (t + 0.37 + g["state_hold"], f"o{i}", old, new)
             continue
         if o["kind"] == "time":
             when = dt.datetime(BASE.year, BASE.month, BASE.day) + dt.timedelta(seconds=o["sec"])
@@ -398,6 +441,9 @@ def run_part_a(case):
         last_accept = t_mono
         stats["acc"] += 1
         expected.append(ident)
+    if g.get("state_hold"):
+        expire(10**9)
+    tw_done = [r for r in w.rec if r["tag"] == "tw"]
     got = []
     for r in trig_runs:
         kw = r["kw"]
@@ -417,6 +463,8 @@ def run_part_a(case):
         else:
             mech = "guarded_runs_differ"
         viol.append({"mech": mech, "msg": f"missing={miss[:5]} unexpected={unex[:5]} expected={expected[:10]} got={got[:10]} hold_off={g['hold_off']} {desc}"})
+    if g.get("tw") and [r.get("r") for r in tw_done] != ["state"]:
+        viol.append({"mech": "transient_watcher_did_not_return", "msg": f"{tw_done}; {desc}"})
     n_direct = sum(1 for o in g["extra"] if o["kind"] == "direct")
     if len(direct) != n_direct:
         viol.append({"mech": "direct_call_blocked_by_guard", "msg": f"{n_direct} direct calls, {len(direct)} ran; {desc}"})
@@ -441,6 +489,8 @@ def run_part_a(case):
             "rejected_state_active": stats["rsa"],
             "rejected_hold_off": stats["rho"],
             "direct_calls": n_direct,
+            "transient_watchers": int(bool(g.get("tw"))),
+            "state_hold_guarded_cases": int(bool(g.get("state_hold"))),
             "legacy_cases": int(case["legacy"]),
             "default_cases": int(not case["legacy"]),
         },
